@@ -3,6 +3,6 @@ CONSTANTS
   Vary = {"mainpos", "mainfirst", "keep", "fn"}
   Fns = {"Println", "Sscan"}
   Shs = {"-"}
-  ScopeAware = FALSE
+  ScopeAware = TRUE
 INVARIANTS TypeOK Confluent ImportSound Export
 PROPERTIES Stable Terminates
